@@ -47,8 +47,8 @@ func (r *R) Intn(n int) int {
 	}
 	return int(r.Uint64() % uint64(n))
 }
-func (r *R) Int63() int64   { return int64(r.Uint64() >> 1) }
-func (r *R) Bool() bool     { return r.Uint64()&1 == 1 }
+func (r *R) Int63() int64          { return int64(r.Uint64() >> 1) }
+func (r *R) Bool() bool            { return r.Uint64()&1 == 1 }
 func (r *R) Chance(p float64) bool { return float64(r.Uint64()>>11)/float64(1<<53) < p }
 func (r *R) Range(lo, hi int) int { // inclusive
 	if hi <= lo {
